@@ -130,14 +130,19 @@ def attach(ctx, rates='default'):
                 continue
             setattr(cls, n, _pure_wrapper(orig, f'{spec}.{n}', skip_first=True))
     # functional laws (wrap the *current* binding so purity stays underneath)
+    # each law is attached through the most public name available; a law whose function cannot
+    # be found is simply not attached (its evaluation count stays 0 and is reported as such)
+    import penman
     import penman.layout as L
-    import penman._lexer as X
-    import penman._parse as P
     import penman.constant as K
     _rebind(L.interpret, _law_interpret(L.interpret))
     _rebind(L.configure, _law_configure(L.configure))
-    _rebind(X.lex, _law_lex(X.lex))
-    _rebind(P.parse, _law_parse(P.parse))
+    try:
+        import penman._lexer as X
+        _rebind(X.lex, _law_lex(X.lex))
+    except (ImportError, AttributeError):
+        pass
+    _rebind(penman.parse, _law_parse(penman.parse))
     _rebind(K.quote, _law_quote(K.quote, K.evaluate))
 
 
